@@ -24,7 +24,7 @@ def describe(tier):
     return {
         "rule": f"every value pool of size 0..{b['max_size']} whose entry expressions range over ALL tuples from the 8-entry menu {ENTRY_MENU} "
                 "(fulfilled, unfulfilled, undetermined, neutral-only, invalid, bare, two-part) x every entered input in {None, '', each "
-                "qualifier, a foreign value} x segment status in {required, optional, forbidden} through validate_data_element_valuepool "
+                "qualifier, foreign values incl. substrings, other letter case and a qualifier with surrounding whitespace} x segment status in {required, optional, forbidden} through validate_data_element_valuepool "
                 f"directly AND through validate_segment ('Muss' / 'Kann' / 'Muss [2]') x {b['cers']} content evaluation results; plus pools of "
                 "size 5 in which entries share expressions in interleaved order, and WIDE pools of 6, 7, 9 and 12 entries that are all "
                 "unfulfilled (fulfilled) except at <= 2 positions (deviation-bounded); entries that use a package are validated under three "
@@ -163,7 +163,8 @@ def check_case(exprs, inp, seg, cer, via, pv=0):
 
 def _inputs(n):
     # foreign values incl. substrings of single qualifiers and of the comma-joined list of qualifiers
-    return [None, ""] + [QUALS[i] if i < len(QUALS) else f"Q{i}" for i in range(n)] + ["ZZ9", "E0", "0", "01, Z02", ", ", "e01"]
+    return [None, ""] + [QUALS[i] if i < len(QUALS) else f"Q{i}" for i in range(n)] + ["ZZ9", "E0", "0", "01, Z02", ", ", "e01",
+                                                                                           QUALS[0] + " ", " " + QUALS[1], QUALS[0] + "\n", " "]
 
 
 def _orders_violations(base, out, plain):
